@@ -213,8 +213,95 @@ pub fn burst(seed: u64, idx: u64) -> Scenario {
     sc
 }
 
+/// the disk fails once during a history of ordinary static-file requests: a file that ends before its
+/// size says (sticky: truncated for good), an I/O error on read, an error at open / stat / seek
+pub fn disk_faults(seed: u64, idx: u64) -> Scenario {
+    let mut rng = rng_for(seed, "C06", "disk_faults", idx);
+    let mut sc = Scenario::base("C06", "disk_faults", idx);
+    sc.engine = Engine::System;
+    sc.sched = pick_sched(&mut rng);
+    sc.workers = rng.range(1, 3);
+    sc.request_size = 16000;
+    sc.yields = vec!["file_io".into()];
+    sc.tree = small_tree(0xC06);
+    sc.tree.entries.push(Entry { path: "root/ln.txt".into(), kind: EntryKind::Symlink("file.txt".into()) });
+    let reqs: Vec<(&str, Vec<u8>)> = vec![
+        ("get_file", get("/file.txt")),
+        ("get_big", get("/big.bin")),
+        ("get_html_fallback", get("/page")),
+        ("get_dir_index", get("/d/")),
+        ("get_link", get("/ln.txt")),
+        ("get_empty", get("/empty.txt")),
+        ("get_missing", get("/missing.txt")),
+        ("get_root_builtin", get("/")),
+        ("range_single", req("GET", "/big.bin", &[("Range", "bytes=100-9999")], b"")),
+        ("range_multi", req("GET", "/big.bin", &[("Range", "bytes=0-3, 8-")], b"")),
+        ("range_multi3", req("GET", "/file.txt", &[("Range", "bytes=0-9,20-29,-5")], b"")),
+        ("range_suffix", req("GET", "/file.txt", &[("Range", "bytes=-10")], b"")),
+        ("head", req("HEAD", "/big.bin", &[], b"")),
+        ("options", req("OPTIONS", "/file.txt", &[("Origin", "http://a.example")], b"")),
+        ("form_get", get("/form-get-method?a=1")),
+    ];
+    let n = rng.range(2, 8);
+    let sequential = rng.chance(1, 2);
+    for k in 0..n {
+        let (name, bytes) = reqs[rng.below(reqs.len())].clone();
+        sc.conns.push(Conn::simple(k, if sequential { k as u32 } else { (k / 3) as u32 }, bytes, name));
+    }
+    let op = *rng.pick(&["read", "read", "read", "open", "stat", "seek"]);
+    let kind = match op {
+        "read" => *rng.pick(&["eof", "eof", "EIO", "EINTR", "EISDIR", "ENOMEM"]),
+        "open" => *rng.pick(&["EACCES", "EMFILE", "ENOENT", "ENOMEM", "EINTR", "EIO"]),
+        "stat" => *rng.pick(&["EACCES", "ENOENT", "EIO", "ENOMEM"]),
+        _ => *rng.pick(&["EIO", "eof"]),
+    };
+    // (an interrupted call is transient by nature: never sticky)
+    let sticky = (kind == "eof" || kind == "EIO") && rng.chance(1, 2);
+    sc.disk_fault = Some(DiskFault { op: op.into(), nth: rng.range(1, 40) as u32, kind: kind.into(), sticky });
+    sc.probe = Probe::Capacity { request: probe_request().into() };
+    sc
+}
+
+/// many downloads of a large file that the client abandons half way (or that fail at the transport),
+/// then the same large file is asked for once more: budgets and counters that only leak on failures
+pub fn large_aborted(seed: u64, idx: u64) -> Scenario {
+    let mut rng = rng_for(seed, "C06", "large_aborted_downloads", idx);
+    let mut sc = Scenario::base("C06", "large_aborted_downloads", idx);
+    sc.engine = Engine::System;
+    sc.sched = pick_sched(&mut rng);
+    sc.workers = rng.range(1, 3);
+    sc.request_size = 16000;
+    let (len, k): (u64, usize) = match rng.below(4) {
+        0 => ((1 << 20) + 1, rng.range(20, 300)),
+        1 | 2 => ((8 << 20) + 1, rng.range(10, 70)),
+        _ => ((64 << 20) + 3, rng.range(2, 9)),
+    };
+    sc.tree = TreeSpec { root: "root".into(), entries: vec![
+        Entry { path: "root/large.bin".into(), kind: EntryKind::File(Content::Sparse { len, seed: rng.next() }) },
+        Entry { path: "root/probe.txt".into(), kind: EntryKind::File(Content::Literal("probe\n".into())) },
+    ], mtime_mode: 0 };
+    let s = sites();
+    let failing: Vec<usize> = (0..s.len()).filter(|&i| ["write_err", "write_zero_at_0", "write_zero_mid", "flush_epipe", "flush_eio", "client_gone_after_send", "handler_err"].contains(&s[i].0)).collect();
+    for j in 0..k {
+        let bytes = match rng.below(5) {
+            0 => req("GET", "/large.bin", &[("Range", "bytes=0-")], b""),
+            1 => req("GET", "/large.bin", &[("Range", &format!("bytes=0-{}, 999999999999-", len - 1))], b""),
+            _ => get("/large.bin"),
+        };
+        let mut c = Conn::simple(j, (j / rng.range(1, 3)) as u32, bytes, "");
+        let (n, apply) = &s[*rng.pick(&failing)];
+        apply(&mut c);
+        c.class = format!("large+{}", n);
+        sc.conns.push(c);
+    }
+    sc.probe = Probe::FollowUp { request: get("/large.bin").into() };
+    sc
+}
+
 pub fn plan(tier: Tier, seed: u64) -> Vec<Campaign> {
     vec![
+        Campaign { name: "disk_faults", budget: match tier { Tier::Quick => Budget::Count(3000), Tier::Thorough => Budget::Time(1) }, exhaustive: false, gen: Box::new(move |i| disk_faults(seed, i)) },
+        Campaign { name: "large_aborted_downloads", budget: Budget::Count(match tier { Tier::Quick => 24, Tier::Thorough => 200 }), exhaustive: false, gen: Box::new(move |i| large_aborted(seed, i)) },
         Campaign { name: "single_fault_enumeration", budget: Budget::Count(enumeration_size()), exhaustive: true, gen: Box::new(move |i| enumerated(seed, i)) },
         Campaign { name: "burst", budget: match tier { Tier::Quick => Budget::Count(24), Tier::Thorough => Budget::Time(1) }, exhaustive: false, gen: Box::new(move |i| burst(seed, i)) },
         Campaign { name: "repeated_fault", budget: match tier { Tier::Quick => Budget::Count(1500), Tier::Thorough => Budget::Time(1) }, exhaustive: false, gen: Box::new(move |i| repeated_fault(seed, i)) },
